@@ -441,7 +441,7 @@ pub fn run(req: &RunRequest) -> Value {
         } else {
             let fault_free = tape::chance("c08:fault_free", 1, 10);
             let deep = !fault_free && tape::chance("c08:deep", 1, 25);
-            let custom = !fault_free && !deep && tape::chance("c08:custom", 1, 12);
+            let custom = !fault_free && !deep && tape::chance("c08:custom", 1, 8);
             let custom_types = if custom {
                 Some((0..tape::range("c08:custom_n", 1, 4)).map(|_| fuzz_custom_type()).collect())
             } else {
@@ -974,9 +974,20 @@ fn fuzz_custom_type() -> String {
             7 => format!("{pre}VectorType({}, {})", gen_type(depth - 1), tape::choose("c08:ct_dim", 5)),
             _ => {
                 let names = ["udt", "a", "ab", "na\u{e9}", "\u{4e16}\u{754c}", "x_y"];
-                let n = names[tape::choose("c08:ct_udt_name", names.len() as u64) as usize];
-                let f = names[tape::choose("c08:ct_udt_field", names.len() as u64) as usize];
-                format!("{pre}UserType(ks1,{},{}:{})", hex(n), hex(f), gen_type(depth - 1))
+                // A token in a hex position: the hex encoding of a name, or (1 in 2) raw
+                // identifier characters that are not (all) hex digits - non-ASCII letters and
+                // digits at even and odd byte offsets, signs, odd lengths.
+                fn token(names: &[&str]) -> String {
+                    if tape::chance("c08:ct_raw_token", 1, 2) {
+                        const RAW: [&str; 14] = ["a", "f", "0", "9", "61", "\u{e9}", "\u{4e16}", "\u{df}", "\u{663}", "+", "-", "g", "Z", "_"];
+                        (0..tape::range("c08:ct_raw_len", 1, 6)).map(|_| RAW[tape::choose("c08:ct_raw_char", RAW.len() as u64) as usize]).collect()
+                    } else {
+                        hex(names[tape::choose("c08:ct_udt_name", names.len() as u64) as usize])
+                    }
+                }
+                let n = token(&names);
+                let f = token(&names);
+                format!("{pre}UserType(ks1,{n},{f}:{})", gen_type(depth - 1))
             }
         }
     }
